@@ -288,6 +288,13 @@ fn parse_chunker_opts(
     let avg_chunk_size = *matches.get_one::<usize>("avg-chunk-size").unwrap();
     let min_chunk_size = *matches.get_one::<usize>("min-chunk-size").unwrap();
     let max_chunk_size = *matches.get_one::<usize>("max-chunk-size").unwrap();
+    // The archive format stores these sizes as 32 bit values
+    if max_chunk_size as u64 > u64::from(u32::MAX) {
+        return Err(cmd.error(
+            ErrorKind::ValueValidation,
+            "Max chunk size can't be bigger than 4 GiB - 1",
+        ));
+    }
     let filter_bits = chunker::FilterBits::from_size(avg_chunk_size as u32);
     if min_chunk_size > avg_chunk_size {
         return Err(cmd.error(
@@ -302,6 +309,12 @@ fn parse_chunker_opts(
         ));
     }
     let window_size = *matches.get_one::<usize>("rolling-window-size").unwrap();
+    if window_size as u64 > u64::from(u32::MAX) {
+        return Err(cmd.error(
+            ErrorKind::ValueValidation,
+            "Rolling window size can't be bigger than 4 GiB - 1",
+        ));
+    }
     Ok(chunker::FilterConfig {
         filter_bits,
         min_chunk_size,
@@ -319,7 +332,15 @@ fn parse_chunker_config(
             matches.get_one::<usize>("fixed-size"),
             matches.get_one::<String>("hash-chunking").unwrap().as_ref(),
         ) {
-            (Some(fixed_size), _) => chunker::Config::FixedSize(*fixed_size),
+            (Some(fixed_size), _) => {
+                if *fixed_size as u64 > u64::from(u32::MAX) {
+                    return Err(cmd.error(
+                        ErrorKind::ValueValidation,
+                        "Fixed chunk size can't be bigger than 4 GiB - 1",
+                    ));
+                }
+                chunker::Config::FixedSize(*fixed_size)
+            }
             (_, "RollSum") => chunker::Config::RollSum(parse_chunker_opts(cmd, matches)?),
             (_, "BuzHash") => chunker::Config::BuzHash(parse_chunker_opts(cmd, matches)?),
             _ => unreachable!(),
